@@ -164,8 +164,18 @@ def resolve(mod: Module, name: str, depth=0):
     return None
 
 
+_FIND_CACHE = {}
+
+
 def find_def(modname: str, qualname: str):
     """Return (Module, node) for `qualname` = `func` | `Class.method` | `func.inner`."""
+    key = (modname, qualname)
+    if key not in _FIND_CACHE:
+        _FIND_CACHE[key] = _find_def(modname, qualname)
+    return _FIND_CACHE[key]
+
+
+def _find_def(modname: str, qualname: str):
     mod = need_module(modname)
     parts = qualname.split(".")
     body = mod.tree.body
